@@ -138,6 +138,21 @@ func execOPRF(p *Plan, run *core.Run) {
 	}
 	skOther, _ := oprf.DeriveKey(suite, mode, data.Bytes(32), nil)
 	pkBytes, _ := sk.Public().MarshalBinary()
+	// the key is exported for backup and the export buffers are wiped afterwards
+	if skb, err := sk.MarshalBinary(); err == nil {
+		keep := append([]byte{}, skb...)
+		core.Recycle(skb)
+		pkb := append([]byte{}, pkBytes...)
+		core.Recycle(pkBytes)
+		pkBytes = pkb
+		again, _ := sk.MarshalBinary()
+		pagain, _ := sk.Public().MarshalBinary()
+		if !bytes.Equal(again, keep) || !bytes.Equal(pagain, pkBytes) {
+			run.Violate(comp+".PrivateKey.MarshalBinary", "returned-bytes-share-memory-with-the-key", "wiping the exported encoding changed the key (private equal: %v, public equal: %v)", bytes.Equal(again, keep), bytes.Equal(pagain, pkBytes))
+			return
+		}
+		run.Fault("disk:exported-key-buffers-wiped")
+	}
 	var inputs [][]byte
 	for _, l := range p.Batch {
 		if l < 0 || l > 500 {
@@ -147,6 +162,16 @@ func execOPRF(p *Plan, run *core.Run) {
 		inputs = append(inputs, data.Bytes(l))
 	}
 	info := data.Bytes(p.Info)
+	// an empty info string is an empty info string, whether the caller spells it nil or []byte{}
+	clientInfo := info
+	if len(info) == 0 {
+		if p.Seed%2 == 0 {
+			info, clientInfo = []byte{}, nil
+		} else {
+			info, clientInfo = nil, []byte{}
+		}
+		run.Fault("misconfig:empty-info-spelled-nil-on-one-side")
+	}
 	// the public key reaches the client in marshalled form
 	pkUse := pkBytes
 	if p.Fault == "pk-other" && mode != oprf.BaseMode {
@@ -349,7 +374,7 @@ func execOPRF(p *Plan, run *core.Run) {
 		run.Bad("fault")
 		return
 	}
-	cinfo := info
+	cinfo := clientInfo
 	if p.Fault == "info-alter" {
 		cinfo = append(append([]byte{}, info...), 1)
 	}
